@@ -122,3 +122,32 @@ where
 pub fn hex(bytes: &[u8]) -> String {
     bytes.iter().map(|b| format!("{:02X}", b)).collect::<Vec<_>>().join(" ")
 }
+
+/// A logger that accepts every record and drops it: with it installed the arguments of
+/// every `warn!`/`trace!` in the code under test are evaluated, as they are with `-v`.
+struct DropLogger;
+impl log::Log for DropLogger {
+    fn enabled(&self, _: &log::Metadata) -> bool {
+        true
+    }
+    fn log(&self, record: &log::Record) {
+        // format the message (that is what a real logger does), discard the result
+        let s = format!("{}", record.args());
+        std::hint::black_box(s.len());
+    }
+    fn flush(&self) {}
+}
+static DROP_LOGGER: DropLogger = DropLogger;
+
+/// Install the dropping logger (once) and set the level: 0 off, 2 warn, 5 trace.
+pub fn set_log_level(level: u8) {
+    let _ = log::set_logger(&DROP_LOGGER);
+    log::set_max_level(match level {
+        0 => log::LevelFilter::Off,
+        1 => log::LevelFilter::Error,
+        2 => log::LevelFilter::Warn,
+        3 => log::LevelFilter::Info,
+        4 => log::LevelFilter::Debug,
+        _ => log::LevelFilter::Trace,
+    });
+}
